@@ -19,6 +19,11 @@ struct Fn { int operator()(int) &; long operator()(int) const&; char operator()(
 struct Pred { bool operator()(int) const; };
 struct ConstCall { int operator()(int) const; int operator()(int) = delete; };
 struct MutCall { int operator()(int); int operator()(int) const = delete; };
+struct RvCall { int operator()(int) &&; int operator()(int) & = delete; int operator()(int) const& = delete; };
+struct LvCall { int operator()(int) &; int operator()(int) && = delete; };
+int& ref_of(int& x);
+int const& cref_of(int const& x);
+int&& rref_of(int& x);
 struct FromPair { FromPair(int, double); };
 template <class T> T&& dv() noexcept;
 template <class T> struct mirror { using type = T; };
@@ -145,8 +150,19 @@ def generate(quick):
         t.add("static_assert(std::%s<etl::reference_wrapper<int>> == std::%s<std::reference_wrapper<int>>);" % (tr, tr), "%s<reference_wrapper<int>>" % tr)
     # the erased call keeps the cv-qualification of the referenced callable: binding must compile although the other overload
     # is deleted (a thunk that casts the const away, or adds const, selects the deleted one and the instantiation fails)
+    # apply / invoke hand back exactly what the callable returns (references stay references)
+    t = tu()
+    for fn, arg in (("m::ref_of", "int&"), ("m::cref_of", "int const&"), ("m::rref_of", "int&")):
+        both(t, "etl::apply(%s, m::dv<etl::tuple<%s>>())" % (fn, arg), "std::apply(%s, m::dv<std::tuple<%s>>())" % (fn, arg),
+             "apply(%s, tuple<%s>) keeps the reference category of the result" % (fn, arg))
+        both(t, "etl::invoke(%s, m::dv<%s>())" % (fn, arg), "std::invoke(%s, m::dv<%s>())" % (fn, arg),
+             "invoke(%s, %s) keeps the reference category of the result" % (fn, arg))
     t = tu()
     for nm, code, label in (
+            ("c20_inv_rv", "inline void w_inv_rv() { (void)etl::invoke(m::RvCall{}, 1); }",
+             "invoke calls an rvalue callable as an rvalue (its lvalue call operators are deleted)"),
+            ("c20_inv_lv", "inline void w_inv_lv() { m::LvCall c{}; (void)etl::invoke(c, 1); }",
+             "invoke calls an lvalue callable as an lvalue (its rvalue call operator is deleted)"),
             ("c20_frc", "inline void w_fr_const() { m::ConstCall const c{}; etl::function_ref<int(int)> r{c}; (void)r; }",
              "function_ref<int(int)> bound to a const callable calls its const operator()"),
             ("c20_frm", "inline void w_fr_mut() { m::MutCall c{}; etl::function_ref<int(int)> r{c}; (void)r; }",
